@@ -1303,6 +1303,344 @@ def jsonld_document(rng, triples):
     return json.dumps(doc, ensure_ascii=rng.random() < 0.5, indent=rng.choice([None, 1]))
 
 
+# ---- JSON-LD with contexts: the writer chooses the meaning first (subject, property IRI, value terms) and then a spelling
+# whose meaning it knows: key as full IRI / compact IRI / vocabulary-relative / term; term definitions as string or
+# object with @id, @type, @language, @container (@list, @set, @language), @reverse; @vocab, @base, default @language,
+# keyword aliases; the members of every object in random order (JSON member order is the author's choice);
+# arrays of contexts; a context embedded in a nested node object.
+VOC = "http://example.org/vocab#"
+VOC2 = "http://example.org/other#"
+JL_PROPS = [VOC + "name", VOC + "knows", VOC + "years", VOC + "label", VOC + "items", NS_E + "p", NS_E + "q", "urn:x:prop"]
+JL_NODES = [NS_E + "s", NS_E + "o", BASE + "x", BASE + "y/z", "urn:n:1", VOC + "Thing"]
+JL_CLASSES = [VOC + "Person", NS_E + "C", "urn:c:1"]
+JL_STR = ["x", "", "a b", "é中", "42", "true", "http://not/an/iri", "e:p", "_:b", "@id"]
+
+
+def shuffled(rng, d):
+    items = list(d.items())
+    rng.shuffle(items)
+    return dict(items)
+
+
+class JsonLdWriter:
+    def __init__(self, rng):
+        self.rng = rng
+        self.use_vocab = rng.random() < 0.75
+        self.base_mode = rng.choice(["ctx", "publicID", None])
+        self.default_lang = rng.choice([None, None, None, "de"])
+        self.alias = rng.random() < 0.4
+        self.idk = "id" if self.alias else "@id"
+        self.typek = "type" if self.alias else "@type"
+        self.ctx = {}                 # term definitions etc. (filled on demand)
+        self.plan = {}                # property IRI -> plan
+        self.triples = []
+        self.nb = 0
+        self.used_e = False
+        self.used_xsd = False
+        self.flags = set()
+        self.other_vocab = 0          # > 0 inside a node object whose embedded context sets another @vocab
+
+    # ---------------------------------------------------------------- IRIs
+    def compact(self, iri):
+        loc = iri[len(NS_E):]
+        if iri.startswith(NS_E) and loc and ":" not in loc and not loc.startswith("//"):
+            self.used_e = True
+            return "e:" + loc
+        return None
+
+    def node_ref(self, iri):
+        """spelling of an IRI where document-relative IRIs are expected (@id values)"""
+        rng = self.rng
+        opts = [iri]
+        c = self.compact(iri) if rng.random() < 0.5 else None
+        if c:
+            opts.append(c)
+        if self.base_mode and iri.startswith(BASE) and len(iri) > len(BASE) and ":" not in iri[len(BASE):].split("/")[0]:
+            opts.append(iri[len(BASE):])
+            self.flags.add("base_relative")
+        return rng.choice(opts)
+
+    def vocab_ref(self, iri, allow_vocab=True):
+        """spelling of an IRI where vocabulary-relative IRIs are expected (keys, @type values, @id of term definitions)"""
+        rng = self.rng
+        opts = [iri]
+        if rng.random() < 0.6:
+            c = self.compact(iri)
+            if c:
+                opts.append(c)
+        if allow_vocab and self.use_vocab and not self.other_vocab and iri.startswith(VOC) and len(iri) > len(VOC):
+            opts += [iri[len(VOC):]] * 2
+        r = rng.choice(opts)
+        if self.use_vocab and not self.other_vocab and r == iri[len(VOC):] and iri.startswith(VOC):
+            self.flags.add("vocab_relative")
+        return r
+
+    # ---------------------------------------------------------------- plans
+    def plan_for(self, p):
+        if p in self.plan:
+            return self.plan[p]
+        saved, self.other_vocab = self.other_vocab, 0      # term definitions go into the outermost context
+        try:
+            pl = self._plan_for(p)
+        finally:
+            self.other_vocab = saved
+        if saved and pl["kind"] == "key" and ":" not in pl["key"]:
+            pl["vocab_key"] = True
+        return pl
+
+    def _plan_for(self, p):
+        rng = self.rng
+        loc = p[len(VOC):] if p.startswith(VOC) else p[len(NS_E):] if p.startswith(NS_E) else "prop"
+        kind = rng.choice(["key", "key", "term_str", "term_obj", "term_obj", "term_obj", "reverse"])
+        pl = {"kind": kind, "coerce": None}
+        if kind == "key":
+            pl["key"] = self.vocab_ref(p)
+            pl["vocab_key"] = ":" not in pl["key"]
+        else:
+            t = rng.choice([loc, "t_" + loc, loc.upper()])
+            if t in self.ctx or t in ("e", "xsd", "id", "type"):
+                t = "t2_" + loc
+            pl["key"] = t
+            if kind == "term_str":
+                self.ctx[t] = self.vocab_ref(p)
+            elif kind == "reverse":
+                self.ctx[t] = {"@reverse": self.vocab_ref(p)}
+                self.flags.add("reverse")
+            else:
+                d = {}
+                if not (t == loc and p.startswith(VOC) and self.use_vocab and rng.random() < 0.5):
+                    d["@id"] = self.vocab_ref(p)
+                else:
+                    self.flags.add("term_without_id")
+                co = rng.choice([None, "@id", "int", "lang_en", "lang_null", "@list", "@set", "@language_map"])
+                pl["coerce"] = co
+                if co == "@id":
+                    d["@type"] = "@id"
+                elif co == "int":
+                    short = rng.random() < 0.5
+                    self.used_xsd = self.used_xsd or short
+                    d["@type"] = "xsd:integer" if short else XSDNS + "integer"
+                elif co == "lang_en":
+                    d["@language"] = "en"
+                elif co == "lang_null":
+                    d["@language"] = None
+                elif co == "@list":
+                    d["@container"] = "@list"
+                elif co == "@set":
+                    d["@container"] = "@set"
+                elif co == "@language_map":
+                    d["@container"] = "@language"
+                if not d:
+                    d["@id"] = self.vocab_ref(p)
+                self.ctx[t] = shuffled(rng, d)
+                self.flags.add("coerce_" + str(co))
+        self.plan[p] = pl
+        return pl
+
+    # ---------------------------------------------------------------- values
+    def fresh(self):
+        self.nb += 1
+        return ("B", f"jb{self.nb}")
+
+    def plain(self, s):
+        return ("L", s, ("lang", self.default_lang) if self.default_lang else None)
+
+    def simple_value(self, coerce, depth):
+        """-> (json, term) for one value under the given coercion (not a container)"""
+        rng = self.rng
+        r = rng.random()
+        if coerce == "@id":
+            iri = rng.choice(JL_NODES)
+            if r < 0.6:
+                return self.node_ref(iri), ("I", iri)
+            return {self.idk: self.node_ref(iri)}, ("I", iri)
+        if coerce == "int":
+            if r < 0.6:
+                s = rng.choice(["42", "0", "-7"])
+                return s, ("L", s, ("dt", XSDNS + "integer"))
+            s = rng.choice(JL_STR)
+            return {"@value": s}, ("L", s, None)
+        if coerce == "lang_en":
+            s = rng.choice(JL_STR)
+            if r < 0.6:
+                return s, ("L", s, ("lang", "en"))
+            if r < 0.8:
+                return {"@value": s, "@language": "fr"}, ("L", s, ("lang", "fr"))
+            return {"@value": s}, ("L", s, None)
+        if coerce == "lang_null":
+            s = rng.choice(JL_STR)
+            return s, ("L", s, None)
+        # no coercion
+        if r < 0.2:
+            iri = rng.choice(JL_NODES)
+            return {self.idk: self.node_ref(iri)}, ("I", iri)
+        if r < 0.4:
+            s = rng.choice(JL_STR)
+            return s, self.plain(s)
+        if r < 0.5:
+            s = rng.choice(JL_STR)
+            return {"@value": s}, ("L", s, None)
+        if r < 0.6:
+            s = rng.choice(JL_STR)
+            return shuffled(rng, {"@value": s, "@language": "EN-us"}), ("L", s, ("lang", "EN-us"))
+        if r < 0.7:
+            s, dt = rng.choice([("1.5", XSDNS + "decimal"), ("x", NS_E + "dt"), ("7", XSDNS + "integer")])
+            return shuffled(rng, {"@value": s, self.typek: dt}), ("L", s, ("dt", dt))
+        if r < 0.78:
+            b = rng.random() < 0.5
+            return b, ("L", "true" if b else "false", ("dt", XSDNS + "boolean"))
+        if r < 0.86:
+            n = rng.choice([0, 5, -3, 12345])
+            return n, ("L", str(n), ("dt", XSDNS + "integer"))
+        if depth < 2:
+            return self.node(None if rng.random() < 0.5 else rng.choice(JL_NODES), depth + 1, embedded=True)
+        s = rng.choice(JL_STR)
+        return s, self.plain(s)
+
+    def list_of(self, items):
+        head = ("I", RDF + "nil")
+        for it in reversed(items):
+            b = self.fresh()
+            self.triples.append((b, ("I", RDF + "first"), it))
+            self.triples.append((b, ("I", RDF + "rest"), head))
+            head = b
+        return head
+
+    def values(self, p, pl, depth):
+        """-> (json value for the key, [terms])"""
+        rng = self.rng
+        co = pl["coerce"]
+        if pl["kind"] == "reverse":
+            vs = [self.simple_value("@id" if rng.random() < 0.5 else None, 9) for _ in range(rng.choice([1, 1, 2]))]
+            vs = [(j if isinstance(j, dict) else {self.idk: j}, t) if t[0] == "I" else None for j, t in vs]
+            vs = [v for v in vs if v is not None]
+            if not vs:
+                iri = rng.choice(JL_NODES)
+                vs = [({self.idk: iri}, ("I", iri))]
+            js = [j for j, _ in vs]
+            return (js[0] if len(js) == 1 and rng.random() < 0.5 else js), [t for _, t in vs]
+        if co == "@list":
+            vs = [self.simple_value(None, 9) for _ in range(rng.choice([0, 1, 2, 3]))]
+            return [j for j, _ in vs], [self.list_of([t for _, t in vs])]
+        if co == "@language_map":
+            m, ts = {}, []
+            for lang in rng.sample(["en", "de", "fr-CA"], rng.choice([1, 2])):
+                ss = [rng.choice(JL_STR) for _ in range(rng.choice([1, 1, 2]))]
+                m[lang] = ss[0] if len(ss) == 1 and rng.random() < 0.6 else ss
+                ts += [("L", s, ("lang", lang)) for s in ss]
+            return m, ts
+        if co is None and pl["kind"] != "reverse" and rng.random() < 0.12:
+            vs = [self.simple_value(None, 9) for _ in range(rng.choice([0, 1, 2]))]
+            self.flags.add("list_object")
+            return {"@list": [j for j, _ in vs]}, [self.list_of([t for _, t in vs])]
+        n = rng.choice([1, 1, 1, 2, 3]) if co != "@set" else rng.choice([1, 2, 3])
+        vs = [self.simple_value(co if co not in ("@set",) else None, depth) for _ in range(n)]
+        js = [j for j, _ in vs]
+        if len(js) == 1 and co != "@set" and rng.random() < 0.7:
+            return js[0], [t for _, t in vs]
+        return js, [t for _, t in vs]
+
+    def node(self, iri, depth, embedded=False):
+        """-> (json node object, subject term)"""
+        rng = self.rng
+        subj = ("I", iri) if iri else self.fresh()
+        obj = {}
+        if iri:
+            obj[self.idk] = self.node_ref(iri)
+        elif rng.random() < 0.5:
+            obj[self.idk] = "_:" + subj[1]
+        if rng.random() < 0.4:
+            cls = rng.sample(JL_CLASSES, rng.choice([1, 2]))
+            tv = [self.vocab_ref(c) for c in cls]
+            obj[self.typek] = tv[0] if len(tv) == 1 and rng.random() < 0.5 else tv
+            for c in cls:
+                self.triples.append((subj, ("I", RDF + "type"), ("I", c)))
+        scoped = embedded and depth <= 2 and rng.random() < 0.3
+        new_vocab = scoped and rng.random() < 0.5
+        if scoped:     # a context embedded in this node object: a term of its own and (sometimes) another vocabulary
+            local = {"loc_t": VOC2 + "scoped"}
+            if new_vocab:
+                local["@vocab"] = VOC2
+                self.flags.add("embedded_vocab")
+            self.flags.add("embedded_context")
+            obj["@context"] = shuffled(rng, local)
+        if new_vocab:
+            self.other_vocab += 1
+            if self.typek in obj:      # the types were spelled before: redo them without vocabulary-relative names
+                tv = [self.vocab_ref(c) for c in cls]
+                obj[self.typek] = tv[0] if len(tv) == 1 and rng.random() < 0.5 else tv
+        for p in rng.sample(JL_PROPS, rng.choice([0, 1, 2, 3]) if embedded else rng.choice([1, 2, 3, 4])):
+            pl = self.plan_for(p)
+            if pl["key"] in obj or (self.other_vocab and pl.get("vocab_key")):
+                continue
+            j, ts = self.values(p, pl, depth)
+            obj[pl["key"]] = j
+            for t in ts:
+                self.triples.append((t, ("I", p), subj) if pl["kind"] == "reverse" else (subj, ("I", p), t))
+        if scoped:
+            s = rng.choice(JL_STR)
+            obj["loc_t"] = {"@value": s}
+            self.triples.append((subj, ("I", VOC2 + "scoped"), ("L", s, None)))
+        if new_vocab:
+            s = rng.choice(JL_STR)
+            obj["inOther"] = {"@value": s}       # vocabulary-relative key under the embedded @vocab
+            self.triples.append((subj, ("I", VOC2 + "inOther"), ("L", s, None)))
+            self.other_vocab -= 1
+        return shuffled(rng, obj), subj
+
+    def document(self):
+        rng = self.rng
+        nodes = []
+        for iri in rng.sample(JL_NODES[:5], rng.choice([1, 2, 3])):
+            j, _ = self.node(iri, 0)
+            nodes.append(j)
+        if rng.random() < 0.3:
+            j, _ = self.node(None, 0)
+            nodes.append(j)
+        base_ctx = {}
+        if self.use_vocab:
+            base_ctx["@vocab"] = VOC
+        if self.base_mode == "ctx":
+            base_ctx["@base"] = BASE
+        if self.default_lang:
+            base_ctx["@language"] = self.default_lang
+        if self.used_e:
+            base_ctx["e"] = NS_E
+        if self.used_xsd:
+            base_ctx["xsd"] = XSDNS
+        if self.alias:
+            base_ctx["id"] = "@id"
+            base_ctx["type"] = "@type"
+        terms = dict(self.ctx)
+        if rng.random() < 0.3 and terms:
+            # an array of contexts: what later definitions rely on (prefixes, @vocab, ...) comes first
+            keys = list(terms)
+            rng.shuffle(keys)
+            k = rng.randrange(len(keys) + 1)
+            c1 = dict(base_ctx, **{x: terms[x] for x in keys[:k]})
+            c2 = {x: terms[x] for x in keys[k:]}
+            ctx = [shuffled(rng, c1)] + ([shuffled(rng, c2)] if c2 else [])
+            self.flags.add("context_array")
+        else:
+            ctx = shuffled(rng, dict(base_ctx, **terms))
+        if isinstance(ctx, dict) and "@vocab" in ctx and list(ctx).index("@vocab") > 0:
+            self.flags.add("vocab_not_first")
+        if len(nodes) == 1 and rng.random() < 0.5:
+            doc = shuffled(rng, dict({"@context": ctx}, **nodes[0]))
+        else:
+            doc = shuffled(rng, {"@context": ctx, "@graph": nodes})
+        return json.dumps(doc, ensure_ascii=rng.random() < 0.5, indent=rng.choice([None, 1]))
+
+
+def jsonld_rich_case(rng):
+    w = JsonLdWriter(rng)
+    doc = w.document()
+    case = {"format": "json-ld", "doc": doc, "expected": [[list(x) for x in t] + [None] for t in w.triples],
+            "flags": sorted(w.flags)}
+    case["publicID"] = BASE if w.base_mode == "publicID" else "http://unused.example/doc"
+    return case
+
+
 FMT_ID = {"turtle": 1, "trig": 2, "xml": 3, "json-ld": 4, "nt": 5, "nquads": 6}
 
 
@@ -1349,7 +1687,13 @@ def parse_kw(case):
 
 
 def gen_spell_case(rng):
-    fmt = rng.choice(["turtle", "turtle", "turtle", "trig", "trig", "xml", "json-ld"])
+    fmt = rng.choice(["turtle", "turtle", "turtle", "trig", "trig", "xml", "json-ld", "json-ld"])
+    if fmt == "json-ld" and rng.random() < 0.7:
+        for _ in range(10):
+            case = jsonld_rich_case(rng)
+            nb = len({tuple(x) for q in case["expected"] for x in q if x is not None and x[0] == "B"})
+            if case["expected"] and nb <= 10:
+                return case
     labels = Ctx(rng.sample(["b1", "b2", "x", "a.b", "_1"], 2))
     base = rng.choice(BASES)
     via = rng.choice(["@base", "BASE", "publicID", "publicID", None]) if fmt in ("turtle", "trig") else None
